@@ -244,3 +244,174 @@ Section Ord.
     - intros i. rewrite !bvec_canon_with. apply Hv.
   Qed.
 End Ord.
+
+(* ====================================================================== Part 2 *)
+Section Table.
+  Variable tbl : table Qc.
+  Hypothesis Hwf : wf_table tbl = true.
+  Hypothesis Hnames : distinct_names (map u_name tbl) = true.
+  Let res := resolve QcN tbl.
+  Let keys := all_keys QcN tbl res.
+
+  Definition Dbase (i : nat) : Prop := is_base tbl i = true.
+  Notation bfac := (basef Dbase).
+
+  Lemma res_length : List.length res = List.length tbl.
+  Proof.
+    unfold res, resolve. destruct (resolve_from_app tbl [] 0) as (tail & E & L). rewrite E. simpl. exact L.
+  Qed.
+
+  Lemma upower_base l e : Forall bfac l -> Forall bfac (upower l e).
+  Proof.
+    intros H. unfold upower. apply Forall_forall. intros z Hz. apply in_map_iff in Hz.
+    destruct Hz as (y & <- & Hy). rewrite Forall_forall in H. destruct (H y Hy) as [P Dy]. split; assumption.
+  Qed.
+
+  Lemma expand_base_gen (r' : resolved (T := Qc)) u :
+    (forall f, In f u -> Forall bfac (bu r' (f_uid f))) -> Forall bfac (expand r' u).
+  Proof.
+    induction u as [|f r IH]; intros H; simpl; [constructor|].
+    apply Forall_app. split.
+    - apply upower_base, H. left. reflexivity.
+    - apply IH. intros g Hg. apply H. right. exact Hg.
+  Qed.
+
+  (* every factor of a resolved base unit is an unprefixed base unit *)
+  Lemma bu_base : forall k, Forall bfac (bu res k).
+  Proof.
+    intros k. induction k as [k IH] using lt_wf_ind.
+    destruct (nth_error tbl k) as [r|] eqn:E.
+    - unfold bu. unfold res at 1. rewrite (res_get_row tbl k r E). unfold resolve_row.
+      destruct (u_kind r) as [|f def] eqn:Kd.
+      + simpl. constructor; [|constructor]. split; [reflexivity|]. simpl.
+        unfold Dbase, is_base. rewrite E, Kd. reflexivity.
+      + rewrite def_product_eq. simpl.
+        pose proof (wf_rows_nth tbl 0 k r Hwf E) as W. rewrite Kd in W. simpl in W.
+        rewrite expand_firstn by exact W. apply expand_base_gen.
+        intros g Hg. apply IH. unfold unit_in in W. rewrite forallb_forall in W.
+        apply Nat.ltb_lt, W, Hg.
+    - unfold bu, res_get. rewrite nth_overflow; [constructor|].
+      rewrite res_length. apply nth_error_None, E.
+  Qed.
+
+  Lemma expand_base u : Forall bfac (expand res u).
+  Proof. apply expand_base_gen. intros f _. apply bu_base. Qed.
+
+  (* ---- the sort keys of the code agree with the base keys on base units *)
+  Lemma key_base i : Dbase i -> key_of keys i = base_key tbl i.
+  Proof.
+    unfold Dbase, is_base. destruct (nth_error tbl i) as [r|] eqn:E; [|discriminate].
+    destruct (u_kind r) eqn:Kd; [|discriminate]. intros _.
+    assert (Hi : (i < List.length tbl)%nat) by (apply nth_error_Some; congruence).
+    unfold key_of, keys, all_keys.
+    rewrite (nth_indep _ [] (sort_key QcN tbl res 0)) by (rewrite map_length, seq_length; exact Hi).
+    rewrite map_nth, seq_nth by exact Hi. simpl.
+    unfold sort_key, base_key, row_name. rewrite E, Kd. reflexivity.
+  Qed.
+
+  Lemma cmp_ext K1 K2 a b :
+    K1 (f_uid a) = K2 (f_uid a) -> K1 (f_uid b) = K2 (f_uid b) -> ufactor_leb K1 a b = ufactor_leb K2 a b.
+  Proof. intros Ea Eb. unfold ufactor_leb, ufactor_cmp. rewrite Ea, Eb. reflexivity. Qed.
+
+  Lemma insert_ext K1 K2 x l :
+    K1 (f_uid x) = K2 (f_uid x) -> (forall z, In z l -> K1 (f_uid z) = K2 (f_uid z)) ->
+    insert_sorted K1 x l = insert_sorted K2 x l.
+  Proof.
+    intros Ex. induction l as [|y r IH]; intros H; simpl; [reflexivity|].
+    rewrite (cmp_ext K1 K2 x y Ex (H y (or_introl eq_refl))).
+    destruct (ufactor_leb K2 x y); [reflexivity|]. f_equal. apply IH. intros z Hz. apply H. right. exact Hz.
+  Qed.
+
+  Lemma sort_ext K1 K2 l :
+    (forall z, In z l -> K1 (f_uid z) = K2 (f_uid z)) -> sort_factors K1 l = sort_factors K2 l.
+  Proof.
+    induction l as [|x r IH]; intros H; simpl; [reflexivity|].
+    rewrite IH by (intros z Hz; apply H; right; exact Hz).
+    apply insert_ext; [apply H; left; reflexivity|].
+    intros z Hz. apply H. right.
+    apply (Permutation_in z (sort_factors_perm K2 r)). exact Hz.
+  Qed.
+
+  Lemma canon_key_base l : Forall bfac l -> canon_with (key_of keys) l = canon_with (base_key tbl) l.
+  Proof.
+    intros H. unfold canon_with, canon_sorted_by. f_equal. f_equal. apply sort_ext.
+    intros z Hz. rewrite Forall_forall in H. destruct (H z Hz) as [_ Dz]. apply key_base, Dz.
+  Qed.
+
+  (* ---- the name order of base units is a strict total order *)
+  Lemma distinct_nth (l : list string) : distinct_names l = true ->
+    forall i j s, nth_error l i = Some s -> nth_error l j = Some s -> i = j.
+  Proof.
+    induction l as [|x r IH]; intros Hd i j s Hi Hj; [destruct i; discriminate|].
+    simpl in Hd. apply andb_true_iff in Hd. destruct Hd as [Hx Hr].
+    apply negb_true_iff in Hx.
+    assert (Hnot : forall k, nth_error r k = Some x -> False).
+    { intros k Hk. apply nth_error_In in Hk.
+      assert (existsb (String.eqb x) r = true) by (apply existsb_exists; exists x; split; [exact Hk | apply String.eqb_refl]).
+      congruence. }
+    destruct i, j; simpl in *.
+    - reflexivity.
+    - injection Hi as <-. exfalso. eapply Hnot; eassumption.
+    - injection Hj as <-. exfalso. eapply Hnot; eassumption.
+    - f_equal. eapply IH; eassumption.
+  Qed.
+
+  Lemma ord_is_compare i j :
+    ord (base_key tbl) i j = String.compare (row_name tbl i) (row_name tbl j).
+  Proof.
+    unfold ord, base_key. simpl. destruct (String.compare (row_name tbl i) (row_name tbl j)); reflexivity.
+  Qed.
+
+  Lemma Dbase_name i : Dbase i -> nth_error (map u_name tbl) i = Some (row_name tbl i).
+  Proof.
+    unfold Dbase, is_base, row_name. destruct (nth_error tbl i) as [r|] eqn:E; [|discriminate].
+    intros _. rewrite nth_error_map, E. reflexivity.
+  Qed.
+
+  Lemma b_ord_eq i j : Dbase i -> Dbase j -> ord (base_key tbl) i j = Eq -> i = j.
+  Proof.
+    intros Di Dj. rewrite ord_is_compare. intros H. apply String.compare_eq_iff in H.
+    apply (distinct_nth _ Hnames i j (row_name tbl i)); [apply Dbase_name, Di | rewrite H; apply Dbase_name, Dj].
+  Qed.
+
+  Lemma b_ord_refl i : ord (base_key tbl) i i = Eq.
+  Proof. rewrite ord_is_compare. apply OrderedTypeEx.String_as_OT.cmp_eq. reflexivity. Qed.
+
+  Lemma b_ord_anti i j : ord (base_key tbl) j i = CompOpp (ord (base_key tbl) i j).
+  Proof. rewrite !ord_is_compare. apply String.compare_antisym. Qed.
+
+  Lemma b_ord_trans i j k :
+    ord (base_key tbl) i j = Lt -> ord (base_key tbl) j k = Lt -> ord (base_key tbl) i k = Lt.
+  Proof.
+    rewrite !ord_is_compare. intros H1 H2.
+    apply OrderedTypeEx.String_as_OT.cmp_lt in H1. apply OrderedTypeEx.String_as_OT.cmp_lt in H2.
+    apply OrderedTypeEx.String_as_OT.cmp_lt. eapply OrderedTypeEx.String_as_OT.lt_trans; eassumption.
+  Qed.
+
+  (* two base-unit lists with the same exponent vector are equal as units *)
+  Lemma base_lists_unit_eq A B :
+    Forall bfac A -> Forall bfac B -> (forall i, bvec A i = bvec B i) -> unit_eq keys A B = true.
+  Proof.
+    intros HA HB Hv. unfold unit_eq, unit_eq_with.
+    apply (list_eqb_eq ufactor_eqb ufactor_eqb_eq).
+    rewrite (canon_key_base A HA), (canon_key_base B HB).
+    apply (canon_unique (base_key tbl) Dbase b_ord_eq b_ord_refl b_ord_anti b_ord_trans); assumption.
+  Qed.
+
+  (* C03_convert_complete: units with the same base-unit exponent vector convert *)
+  Theorem convert_complete (q : quantity (T := Qc)) target :
+    (forall x, dimv res (q_unit q) x = dimv res target x) ->
+    exists q', convert_to QcN tbl res keys q target = Ok q'.
+  Proof.
+    intros Hd. unfold convert_to.
+    destruct (unit_eq keys (q_unit q) target || q_is_zero QcN q); [eexists; reflexivity|].
+    rewrite !to_base_eq. cbv beta iota zeta. cbn [fst snd].
+    match goal with |- context [if ?c then _ else _] => assert (E : c = true) end.
+    { apply base_lists_unit_eq.
+      - apply canon_base, expand_base.
+      - apply canon_base, expand_base.
+      - intros i. rewrite !bvec_canon_with, !bvec_expand. unfold canon. rewrite !dimv_canon_with.
+        unfold udiv. rewrite !dimv_app, Hd. reflexivity. }
+    rewrite E. eexists. reflexivity.
+  Qed.
+End Table.
